@@ -103,10 +103,11 @@ def session(p, at=None, kind="crash"):
         events = [json.loads(l) for l in trace.read_text().splitlines()] if trace.exists() else []
         wr = [e for e in events if e["phase"] == "write"]
         files = {n: (d / n).read_bytes() for n in p["files"]}
+        leftovers = sorted(x.name[:-len(".inline-snapshot.tmp")] for x in d.iterdir() if x.name.endswith(".inline-snapshot.tmp"))
         st = d / ".inline-snapshot" / "external"
         store = sorted(x.name for x in st.iterdir() if x.name != ".gitignore")
         halted = 1 if r["rc"] == 77 else (2 if "INTERNALERROR" in out or any(e["step"] == "raised" for e in events) else 0)
-        return {"rc": r["rc"], "events": wr, "files": files, "store": store, "halted": halted, "out": out[-3000:], "out_all": out}
+        return {"rc": r["rc"], "events": wr, "files": files, "store": store, "halted": halted, "out": out[-3000:], "out_all": out, "tmps": leftovers}
     finally:
         shutil.rmtree(d, ignore_errors=True)
 
@@ -141,7 +142,7 @@ def abstract_trace(events, order, ids):
             continue
         if step == "raised":
             continue
-        if step in ("read", "import", "open_w", "write"):
+        if step in ("read", "import", "open_w", "write", "mode", "replace"):
             out.append((step, order.index(e["what"]) if e["what"] in order else 99))
         elif step == "persist":
             out.append((step, ids.get(e["what"], 99)))
@@ -224,7 +225,7 @@ def config_of(p, ref, order, ids):
 
 
 def g_step(s):
-    name = {"read": "SRead", "import": "SImport", "persist": "SPersist", "open_w": "SOpenW", "write": "SWrite"}
+    name = {"read": "SRead", "import": "SImport", "persist": "SPersist", "open_w": "SOpenW", "write": "SWrite", "mode": "SMode", "replace": "SRename"}
     if s[0] == "format":
         return "SFormat"
     if s[0] == "parse":
@@ -238,7 +239,7 @@ def g_case(p, cfg, flt, obs, nnews, nolds):
     c = "{| c_enforce := %s; c_fmt := %s; c_files := %s |}" % (g_bool(p["setup"] == "fmtcmd"), fm, files)
     f = "None" if flt is None else f"(Some ({g_nat(flt[0])}, {'Crash' if flt[1] == 'crash' else 'Fail'}))"
     o = g_pair(g_list(obs["trace"], g_step), g_list(obs["disk"], lambda e: g_pair(g_nat(e[0]), g_nat(e[1]))),
-               g_list(obs["store"], lambda e: g_pair(g_nat(e[0]), g_bool(e[1]))), g_nat(obs["halted"]), g_bool(obs["reported"]))
+               g_list(obs["store"], lambda e: g_pair(g_nat(e[0]), g_bool(e[1]))), g_nat(obs["halted"]), g_bool(obs["reported"]), g_list(obs["tmps"], g_nat))
     return g_pair(c, f, g_list(range(nnews), g_nat), g_list(range(nnews, nnews + nolds), g_nat), o)
 
 
@@ -254,7 +255,8 @@ def observe(p, r, ref, order, ids):
     # a problem counts as reported when the report at the end of the write phase shows one, or when the completed session
     # has shown the Problems section before (the same message is not repeated)
     reported = reported or (r["halted"] == 0 and "Problems" in r["out_all"])
-    return {"trace": tr, "disk": disk, "store": sorted(store), "halted": r["halted"], "reported": reported}
+    return {"trace": tr, "disk": disk, "store": sorted(store), "halted": r["halted"], "reported": reported,
+            "tmps": [order.index(n) for n in r.get("tmps", []) if n in order]}
 
 
 # ----------------------------------------------------------------------------- oracle (independent of the model)
@@ -267,11 +269,11 @@ def judge(p, r, ref, order, flt, tr_ref):
         if cl in (2, 3, 4):
             what = {2: "is empty (truncated)", 3: "is not valid Python", 4: "is neither its previous nor the complete new content"}[cl]
             tag = None
-            if cl == 2 and step_at is not None and step_at[0] == "write" and order[step_at[1]] == n:
-                tag = "F-19"      # interruption / failure exactly between open(.., 'bw') and write() of this file
             if cl == 3 and p["fmt"] == "garbage" and flt is not None and flt[1] == "fail":
                 continue          # double fault (formatter returns garbage AND fails transiently): outside the property
             return (f"after the fault {flt} at step {step_at} the test file {n} {what}", tag)
+    if r.get("tmps") and r["halted"] != 1:
+        return (f"after the fault {flt} at step {step_at} a temporary file was left behind next to {r['tmps']} although the process was not interrupted", None)
     bad = dangling(r["files"], r["store"])
     if bad:
         return (f"after the fault {flt} at step {step_at}: dangling external references {bad} (store: {r['store']})", None)
@@ -307,7 +309,7 @@ def run_project(item):
     points = [(n, k) for n in range(len(tr_ref) + 1) for k in ("crash", "fail")]
     if budget < len(points):
         # always the boundaries around writes and persists, the rest sampled
-        key = [(n, k) for (n, k) in points if n < len(tr_ref) and (tr_ref[n][0] in ("write", "open_w", "persist") or (p["setup"] == "fmtcmd" and tr_ref[n][0] == "format" and k == "fail"))]
+        key = [(n, k) for (n, k) in points if n < len(tr_ref) and (tr_ref[n][0] in ("write", "open_w", "mode", "replace", "persist") or (p["setup"] == "fmtcmd" and tr_ref[n][0] == "format" and k == "fail"))]
         rest = [x for x in points if x not in key]
         rng.shuffle(key)
         rng.shuffle(rest)
@@ -325,11 +327,12 @@ def run(ctx: Ctx):
         "projects of 1-3 test files (formatter-clean or not) with pending create/fix changes, newly outsourced externals (also shared between files), references to "
         "externals persisted earlier, HasRepr values (import insertion); black in process or a format-command; formatter behaviour ok / always failing / returning "
         "unparsable text with exit status 0.  A plugin living in /verif records every side-effecting call of the write phase of the REAL pytest_sessionfinish "
-        "(read, formatter call, ast.parse, ensure_import, persist, open for writing, write) and injects one fault at a chosen call boundary: interruption (os._exit "
+        "(read, formatter call, ast.parse, ensure_import, persist, open of the temporary file, write, copymode, os.replace) and injects one fault at a chosen call boundary: interruption (os._exit "
         "before the call) or failure of the call (black raises / format-command exits non-zero / OSError).  Correspondence: recorded steps, class of every file "
         "afterwards, store, how the run ended, problem reported vs Model/Faults.v evaluated in Coq for the same configuration and fault.  Oracle (independent of the "
         "model): every test file equals its previous bytes or parses to the syntax tree of the complete new content; every external(...) reference in every file "
-        "resolves to exactly one non-new file (what survives the next session start); a formatter failure does not stop the session and is reported.  "
+        "resolves to exactly one non-new file (what survives the next session start); a formatter failure does not stop the session and is reported; a temporary "
+        "file is left behind only by an interruption.  "
         "non-trivial = fault injected")
     proof_step(ctx)
     nproj = 10 if not ctx.thorough else 60
